@@ -636,7 +636,7 @@ func (g *G) regex() string {
 		out += "^"
 	}
 	for i, n := 0, 1+g.uni(3, "regexn"); i < n; i++ {
-		out += pickU(g, []string{"a", "b", "A", "B", "a", "b", ".", "[ab]", "(ab)", "(a|b)", "x", "ß"}, "regexatom")
+		out += pickU(g, []string{"a", "b", "A", "B", "a", "b", ".", "[ab]", "(ab)", "(a|b)", "x", "ß", "s", "k", "σ", "i", "µ"}, "regexatom")
 		out += pickU(g, []string{"", "", "", "*", "?", "+", "{0,2}", "{0}", "{1,2}", "{2}", "*?"}, "regexquant")
 	}
 	if g.pct("regexdollar") < 40 {
